@@ -177,6 +177,18 @@ Definition nextActivation (exact : bool) (h act act_dot prm0 : T) (limited : boo
 Definition nextActivation_clampfirst (h act act_dot : T) (lo hi : T) : T :=
   mjclip act lo hi + act_dot * h.
 
+(* ------------------------------------------------------------------ actuator force and its velocity derivative *)
+(* scalar actuator, affine gain (g0,g1,g2) and affine bias (b0,b1,b2), no activation:
+     input  u     = ctrl clamped to ctrlrange when ctrllimited            (mj_fwdActuation, clampVec)
+     force(v)     = (g0 + g1 len + g2 v) u + (b0 + b1 len + b2 v), clamped to forcerange when forcelimited
+   mjd_actuator_vel: d force / d v = g2 u + b2 unless the (clamped) force sits at a limit, then 0 *)
+Definition act_input (ctrllimited : bool) (clo chi ctrl : T) : T := if ctrllimited then mjclip ctrl clo chi else ctrl.
+Definition act_force_raw (g0 g1 g2 b0 b1 b2 len u v : T) : T := (g0 + g1 * len + g2 * v) * u + (b0 + b1 * len + b2 * v).
+Definition act_force (forcelimited : bool) (flo fhi g0 g1 g2 b0 b1 b2 len u v : T) : T :=
+  let f := act_force_raw g0 g1 g2 b0 b1 b2 len u v in if forcelimited then mjclip f flo fhi else f.
+Definition act_force_vel (forcelimited : bool) (flo fhi g2 b2 u force : T) : T :=
+  if andb forcelimited (orb (force <=? flo) (fhi <=? force)) then nzero else b2 + g2 * u.
+
 (* ------------------------------------------------------------------ mj_advance (velocity, position, time) *)
 (* mju_addToScl: res[i] += vec[i]*scl *)
 Fixpoint addToScl (res vec : list T) (scl : T) : list T :=
